@@ -156,7 +156,20 @@ pub fn random_str(rng: &mut Rng) -> String {
         let n = rng.below(40) as usize;
         s.push_str(&"x".repeat(n));
     }
+    if rng.chance(1, 12) {
+        // lengths around the boundaries of the length prefixes of composite encodings
+        // (1 byte below 254, 3 bytes up to 65535, 5 bytes beyond)
+        let n = if rng.chance(1, 40) { *rng.pick(&[65535usize, 65536]) } else { *rng.pick(&[253usize, 254, 255, 256, 300]) };
+        let c = *rng.pick(&["b", "m", "y"]);
+        s.push_str(&c.repeat(n.saturating_sub(s.len())));
+    }
     s
+}
+
+/// strings whose encoded length sits on either side of the 1-byte / 3-byte / 5-byte length-prefix
+/// boundaries used by variable-width tuples, arrays and Option
+pub fn long_strs() -> Vec<String> {
+    vec!["b".repeat(253), "b".repeat(254), "c".repeat(20), "m".repeat(300), "x".repeat(255)]
 }
 
 pub fn bytes_pool(max_len: usize) -> Vec<Vec<u8>> {
@@ -191,6 +204,11 @@ pub fn random_bytes(rng: &mut Rng) -> Vec<u8> {
     v.extend(rng.bytes(n));
     if rng.chance(1, 3) {
         v.push(*rng.pick(&[0u8, 1, 0x7f, 0x80, 0xff]));
+    }
+    if rng.chance(1, 12) {
+        let n = if rng.chance(1, 40) { *rng.pick(&[65535usize, 65536]) } else { *rng.pick(&[253usize, 254, 255, 256, 300]) };
+        let b = *rng.pick(&[0u8, 0x61, 0xff]);
+        v.resize(n.max(v.len()), b);
     }
     v
 }
@@ -485,6 +503,10 @@ impl NK for NTupU32Str {
                 out.push((x, s));
             }
         }
+        for s in long_strs() {
+            out.push((1, s.clone()));
+            out.push((0x100, s));
+        }
         out
     }
     fn random(rng: &mut Rng) -> (u32, String) {
@@ -509,6 +531,10 @@ impl NK for NTupStrU32 {
             for x in a {
                 out.push((s.clone(), x));
             }
+        }
+        for s in long_strs() {
+            out.push((s.clone(), 1));
+            out.push((s, u32::MAX));
         }
         out
     }
@@ -538,6 +564,10 @@ impl NK for NTup3 {
                     out.push((s.to_string(), b.to_vec(), i));
                 }
             }
+        }
+        for s in long_strs() {
+            out.push((s.clone(), vec![0], 0));
+            out.push(("a".to_string(), s.into_bytes(), 1));
         }
         out
     }
